@@ -519,6 +519,60 @@ fn compound_and_blocking() -> T {
     expectu(&s, "q", 0x4c)
 }
 
+fn wildcard_labels() -> T {
+    let mut s = build(
+        "module t(input logic [2:0] x, input logic signed [2:0] sx, output logic [3:0] ci, output logic [3:0] cp, output logic [3:0] ce, output logic in1, output logic out1, output logic [3:0] cs);
+           always_comb begin
+             ci = 4'd0;
+             case (x) inside
+               3'b000, 3'b1x0: ci = 4'd1;      // wildcard as a LATER label: x/z digits of the item are don't-care (==?)
+               3'bz01: ci = 4'd2;              // z digit is a wildcard too: 001 and 101
+               [2:3], 3'b11z: ci = 4'd3;       // range first, wildcard later; 110 was taken by the first item
+             endcase
+           end
+           always_comb begin
+             cp = 4'd0;
+             case (x)                          // plain case compares with ===: an x/z label never equals a 2-state selector
+               3'b000, 3'b1x0: cp = 4'd1;
+               3'b101: cp = 4'd2;
+               default: cp = 4'd9;
+             endcase
+           end
+           assign ce = ((x) ==? (3'b1x0)) ? 4'd1 : ((x) ==? (3'b011)) ? 4'd2 : 4'd3;
+           assign in1 = x inside {3'b0x1, [6:7]};
+           assign out1 = !(x inside {3'bzz0});
+           always_comb begin
+             cs = 4'd0;
+             // mixed signedness of the items makes EVERYTHING unsigned (IEEE 12.5.1): sx = -1 is 32'd7 and matches `7`
+             case (sx)
+               7, 3'd0: cs = 4'd1;
+               default: cs = 4'd2;
+             endcase
+           end
+         endmodule",
+        "t",
+    )?;
+    // x: (ci, cp, ce, in1, out1)
+    let table: &[(u64, u64, u64, u64, u64, u64)] =
+        &[(0, 1, 1, 3, 0, 0), (1, 2, 9, 3, 1, 1), (2, 3, 9, 3, 0, 0), (3, 3, 9, 2, 1, 1), (4, 1, 9, 1, 0, 0), (5, 2, 2, 3, 0, 1), (6, 1, 9, 1, 1, 0), (7, 3, 9, 3, 1, 1)];
+    pokeu(&mut s, "x", 0)?;
+    poke(&mut s, "sx", "111")?;
+    init(&mut s)?;
+    expectu(&s, "cs", 1)?;
+    for (x, ci, cp, ce, in1, out1) in table {
+        pokeu(&mut s, "x", *x)?;
+        eval(&mut s)?;
+        expectu(&s, "ci", *ci).map_err(|e| format!("x={x}: {e}"))?;
+        expectu(&s, "cp", *cp).map_err(|e| format!("x={x}: {e}"))?;
+        expectu(&s, "ce", *ce).map_err(|e| format!("x={x}: {e}"))?;
+        expectu(&s, "in1", *in1).map_err(|e| format!("x={x}: {e}"))?;
+        expectu(&s, "out1", *out1).map_err(|e| format!("x={x}: {e}"))?;
+    }
+    poke(&mut s, "sx", "001")?;
+    eval(&mut s)?;
+    expectu(&s, "cs", 2)
+}
+
 pub fn self_test() -> Result<usize, String> {
     let tests: Vec<(&str, fn() -> T)> = vec![
         ("sizing", sizing),
@@ -532,6 +586,7 @@ pub fn self_test() -> Result<usize, String> {
         ("structs_enums_arrays", structs_enums_arrays),
         ("casts_inside_concat", casts_inside_concat),
         ("compound_and_blocking", compound_and_blocking),
+        ("wildcard_labels", wildcard_labels),
     ];
     let n = tests.len();
     for (name, f) in tests {
